@@ -29,6 +29,10 @@ type builtCorpus struct {
 	compiled map[string]bool   // schema/variant -> compiles
 	buildErr map[string]string // schema/variant -> first compiler error
 	plugins  *genpipe.Plugins
+
+	// sameAsBase: (schema, option variant) pairs left out of gens because the generator produced the base variant's code
+	// for them (compiled and run there); C16's requests naming several files still include them
+	sameAsBase []*genpipe.Generated
 }
 
 func goTypeName(full string) string { return strings.ReplaceAll(full, ".", "_") }
@@ -103,6 +107,13 @@ func allVariants() []genpipe.Variant {
 	for _, o := range genpipe.NewBoolOptions() {
 		vs = append(vs, genpipe.Variant{Runtime: "v2", FM: true, Opt: o}, genpipe.Variant{Runtime: "v1", FM: true, PerMessage: true, Opt: o})
 	}
+	// the repeatable option (a flag.Value, discovered in the generator's source too): every shape of handing it several
+	// values, with the runtime it is meant for
+	if genpipe.HasValueOption("specialname") {
+		for _, sh := range genpipe.RepeatedShapes {
+			vs = append(vs, genpipe.Variant{Runtime: "gogo", FM: true, Rep: sh.Label})
+		}
+	}
 	return vs
 }
 
@@ -119,27 +130,71 @@ func buildCorpus(c *fw.Ctx) *builtCorpus {
 	for _, o := range genpipe.NewBoolOptions() {
 		optEffect[o+"=true"] = []string{}
 	}
+	optLabel := func(v genpipe.Variant) string {
+		if v.Rep != "" {
+			return "specialname=" + strings.Join(v.SpecialNames(), ",specialname=")
+		}
+		return v.Opt + "=true"
+	}
+	variants := allVariants()
+	tGen := time.Now()
+	for _, v := range variants {
+		if v.Rep != "" {
+			optEffect[optLabel(v)] = []string{}
+		}
+	}
 	for _, s := range genpipe.Corpus() {
 		base := map[genpipe.Variant]*genpipe.Generated{}
-		for _, v := range allVariants() {
-			if !s.AppliesTo(v.Runtime) {
+		// (a schema that needs several specialname values has no fixed variant: the first shape that takes it is the
+		// base of the others — on every shape with the names it needs, the generated code must be the same)
+		var repBase *genpipe.Generated
+		for _, v := range variants {
+			if !v.Takes(s) {
 				continue
 			}
-			g := genpipe.Generate(pl, s, v)
-			if v.Opt == "" {
-				base[v] = g
-			} else {
-				bv := v
-				bv.Opt = ""
-				if b := base[bv]; b != nil && genpipe.SameOutput(b, g) {
-					continue // the same code as the base variant: compiled and run there
-				}
-				optEffect[v.Opt+"=true"] = append(optEffect[v.Opt+"=true"], s.ID+"/"+v.Name())
+			// the shapes of the repeatable option: all of them on the schemas the option is meant for (and the first schema
+			// of the corpus), the three values in descending order and all values on every schema
+			if v.Rep != "" && v.Rep != "desc3" && v.Rep != "asc6" && len(s.Special) == 0 && s.ID != genpipe.Corpus()[0].ID {
+				continue
 			}
+			if v.Opt == "" && v.Rep == "" {
+				g := genpipe.Generate(pl, s, v)
+				base[v] = g
+				bc.gens = append(bc.gens, g)
+				continue
+			}
+			bv := v
+			bv.Opt, bv.Rep = "", ""
+			b := base[bv]
+			if b == nil && v.Rep != "" {
+				b = repBase
+			}
+			if b != nil && strings.HasPrefix(b.GenError, "runtime plug-in") {
+				continue // the runtime's own plug-in rejects the schema, whatever the generator's options
+			}
+			g, same := genpipe.GenerateUnlessSame(pl, s, v, b)
+			if same {
+				// the same code as the base variant: compiled and run there. C16's requests naming several files take the
+				// schemas the repeatable option reaches and the first schema of the corpus
+				if v.Rep == "" || len(s.Special) > 0 || s.ID == genpipe.Corpus()[0].ID {
+					bc.sameAsBase = append(bc.sameAsBase, g)
+				}
+				continue
+			}
+			if v.Rep != "" && base[bv] == nil && repBase == nil {
+				repBase = g
+			}
+			optEffect[optLabel(v)] = append(optEffect[optLabel(v)], s.ID+"/"+v.Name())
 			bc.gens = append(bc.gens, g)
 		}
 	}
+	c.Extra["corpus_generate_s"] = time.Since(tGen).Seconds()
 	c.Extra["generator_bool_options_discovered"] = genpipe.BoolOptions()
+	c.Extra["generator_value_options_discovered"] = genpipe.ValueOptions()
+	if nv := genpipe.NewValueOptions(); len(nv) > 0 {
+		c.Extra["generator_value_options_without_variants"] = nv
+		c.Notes = append(c.Notes, fmt.Sprintf("the generator registers value options (flags.Var) the pipeline has no values for: %v — no variant exercises them", nv))
+	}
 	c.Extra["generator_option_variants_with_other_code_than_the_base_variant"] = optEffect
 	// everything that influences the runner binary goes into the key
 	repoHash, _ := exec.Command("bash", "-c", "cd "+fw.RepoDir+" && { git rev-parse HEAD; git diff HEAD -- . ':!example' ':!cmd' ; git status --porcelain -- . ':!example'; } | sha256sum").Output()
